@@ -11,8 +11,11 @@ Binding crash-state enumeration on the real engine: the writer process (sigdrv d
         replay of calls 1..i on an empty directory.  Every such state (thorough) / every class boundary plus a seeded
         sample (quick) is handed to a fresh engine process: start-up, match-all search, count, more ingest + flush,
         search again, restart, search again.  Oracle = the property, with the markers saying which flushes had
-        completed.  The recorded order of file operations is also validated against Trace_FlushProtocol (conformance:
-        the exhaustive model result transfers only if the code writes in the order the spec assumes).
+        completed.  The recorded order of file operations of every suitable segment is also validated against
+        Trace_FlushProtocol (conformance: the exhaustive model result transfers only if the code writes in the order the
+        spec assumes); it was this validation that showed the rotation's second .sfm rewrite, which the first spec lacked.
+        History "tree" runs with the persistent-query machinery primed, so that a rotation writes an agile tree
+        (.strm / .strl) and recovered states are also asked a match-all group-by.
 """
 import json
 import os
@@ -35,7 +38,9 @@ MANIFEST = dict(
           "starting a fresh engine on it: start-up must succeed, events of completed flushes must be returned exactly once "
           "with their content, the in-progress flush all-or-nothing, counts consistent with what is searchable, later ingest "
           "must not overwrite recovered data. The recorded operation order is validated against the spec's action order."),
-    note=("Process-crash model only (completed system calls persist, OS survives): no torn single writes, no power loss. "
+    note=("The order validation (Trace_FlushProtocol) covers segments whose rotation has nothing left to flush; a rejected "
+          "trace without a property failure is exit 2 (spec drift), not a verdict. "
+          "Process-crash model only (completed system calls persist, OS survives): no torn single writes, no power loss. "
           "Crash points are those of the recorded schedules (parallel column writers are recorded in the order they "
           "happened; the model covers their other interleavings). Metrics WAL crash behaviour is C10."),
     design_ref="DESIGN.md 4/C07",
@@ -60,6 +65,10 @@ def history(name):
         "f1": [("bulk", [1]), ("flush",)],
         "r2": [("bulk", [1, 2]), ("flush",), ("rotate",), ("bulk", [3, 4]), ("flush",), ("rotate",), ("bulk", [5]), ("flush",)],
         "wide": [("bulk", list(range(1, 9))), ("flush",), ("bulk", list(range(9, 12))), ("flush",), ("rotate",)],
+        # persistent-query machinery on and primed with group-by queries: the second segment carries an agile tree
+        # (.strm / .strl written by the rotation), which match-all group-by queries read after recovery
+        "tree": [("bulk", [1, 2]), ("flush",), ("query", "* | stats count by w"), ("query", "* | stats sum(n) by w"), ("rotate",),
+                 ("bulk", [3, 4]), ("flush",), ("bulk", [5]), ("flush",), ("rotate",), ("bulk", [6]), ("flush",)],
     }
     return H[name]
 
@@ -68,7 +77,7 @@ def script(hist, data, mark):
     """sigdrv command script with markers + the per-call id sets"""
     # the data directory is given RELATIVE to the process's working directory: segment keys stored in .sfm / segmeta.json
     # are then relative too, so a crash state can be recovered from any location (cwd = the state's root)
-    cmds = [{"op": "init", "dir": "data"}]
+    cmds = [{"op": "init", "dir": "data", "pqs": any(st[0] == "query" for st in hist)}]
     calls = []       # (kind, k, ids covered)
     pending = []
     k = 0
@@ -76,6 +85,8 @@ def script(hist, data, mark):
         if st[0] == "bulk":
             cmds.append(bulk_cmd(st[1]))
             pending += st[1]
+        elif st[0] == "query":
+            cmds.append({"op": "query", "text": st[1], "index": IDX, "start": 1})
         else:
             k += 1
             kind = "flush" if st[0] == "flush" else "rot"
@@ -149,6 +160,21 @@ def recover_and_check(binary, state_dir, completed, inprog, i_label):
                     c = 0
                 if c != len(set(ids)):
                     bad.append(("C07:count-mismatch", "%s: count(*) = %s but a match-all search returns %d events" % (stage, c, len(set(ids)))))
+            # a match-all group-by must be answered (it reads the segment's agile tree when there is one) and agree as well
+            r4 = dr.cmd("query", text="* | stats count by w", index=IDX, start=1, end=1900000000000, timeout=60)
+            res4 = r4.get("res") or {}
+            if not r4.get("ok") or "qerr" in res4 or res4.get("hang"):
+                bad.append(("C07:query:error", "%s: group-by count failed: %s" % (stage, (r4.get("err") or res4.get("qerr") or "hang")[:300])))
+            else:
+                tot = 0
+                for row in res4.get("measure") or []:
+                    try:
+                        tot += int(float(str(row["MeasureVal"].get("count(*)")).replace(",", "")))
+                    except (TypeError, ValueError):
+                        tot = None
+                        break
+                if tot != len(set(ids)):
+                    bad.append(("C07:groupby-mismatch", "%s: the groups of `stats count by w` sum to %s but a match-all search returns %d events" % (stage, tot, len(set(ids)))))
             # a time-bounded search over exactly the time span of the newest completed events must find them too
             # (a recovered segment whose recorded time range is stale hides them from bounded searches only)
             mine = sorted(i for i in (sure if sure is not None else must) if isinstance(i, int) and i < 1000)
@@ -186,43 +212,188 @@ def recover_and_check(binary, state_dir, completed, inprog, i_label):
     return bad
 
 
-def spec_events(ops, calls, data):
-    """Project the recorded operations of ONE segment (the first) onto FlushProtocol action names."""
-    evs = []
-    seg_csg = {}      # csg path -> state within the current flush
-    cur = None
+SPEC_CLASSES = ("csg", "bsu", "ssttmp", "sst", "sfmtmp", "sfm", "strmtmp", "strm", "strl")
+
+
+def spec_events(ops, data, seg_index):
+    """Project the recorded operations of ONE segment (the seg_index-th segment directory that appears) onto FlushProtocol
+    action names.  -> (events, params) or None when the segment's history is not of the spec's shape (a rotation that
+    flushes a non-empty buffer itself)."""
+    segdirs = []
     for op in ops:
-        p = op.get("path") or op.get("dst") or ""
-        cls = classify(op)
+        p = op.get("dst") or op.get("path") or ""
+        if p.startswith(data) and crashfs.file_class(p) in SPEC_CLASSES:
+            d = os.path.dirname(p)
+            if d not in segdirs:
+                segdirs.append(d)
+    if seg_index >= len(segdirs):
+        return None
+    mine = segdirs[seg_index]
+    # windows: the markers are global; the current segment index advances at every rot.done
+    cur_seg, win, wins = 0, None, []       # wins: list of [kind, [op indexes of this segment]]
+    nseg_meta = 0
+    items = []      # (kind, payload) in order: ("win-begin", kind) ("op", idx) ("win-end", kind) ("segmeta", idx)
+    for idx, op in enumerate(ops):
+        p = op.get("dst") or op.get("path") or ""
         if op["k"] == "write" and not p.startswith(data):
             t = op["data"].decode().strip()
-            if t.startswith("flush.begin") or t.startswith("rot.begin"):
-                seg_csg = {}
-            if t.startswith("flush.done"):
-                evs.append({"ev": "MarkDone"})
-            if t.startswith("rot.done"):
-                evs.append({"ev": "RotDone"})
+            kind = t.split(".")[0]
+            if ".begin" in t:
+                win = kind
+                if cur_seg == seg_index:
+                    items.append(("win-begin", kind))
+            elif ".done" in t:
+                if cur_seg == seg_index:
+                    items.append(("win-end", kind))
+                win = None
+                if kind == "rot":
+                    cur_seg += 1
             continue
-        if cls == "csg":
-            if p not in seg_csg:
-                seg_csg[p] = 0
-                evs.append({"ev": "ColStart", "c": os.path.basename(p)})
-            seg_csg[p] += 1
-            if op["k"] == "write" and op["off"] >= 0 and len(op["data"]) == 4 and seg_csg[p] >= 3 and op.get("_last_hdr"):
-                evs.append({"ev": "ColFinish", "c": os.path.basename(p)})
-        elif cls == "bsu" and op["k"] == "write":
-            evs.append({"ev": "BsuAppend"})
-        elif cls == "ssttmp" and op["k"] == "create":
-            evs.append({"ev": "SstTmp"})
-        elif cls == "sst" and op["k"] == "rename":
-            evs.append({"ev": "SstRename"})
-        elif cls == "sfm" and op["k"] in ("create", "rename"):
-            evs.append({"ev": "SfmWrite", "how": op["k"]})
-        elif cls == "sfm" and op["k"] == "write":
-            evs.append({"ev": "SfmFill"})
-        elif cls == "segmeta" and op["k"] == "write":
-            evs.append({"ev": "SegmetaAppend"})
-    return evs
+        cls = crashfs.file_class(p)
+        if cls == "segmeta" and op["k"] == "write":
+            if nseg_meta == seg_index:
+                items.append(("segmeta", idx))
+            nseg_meta += 1
+            continue
+        if cls in SPEC_CLASSES and os.path.dirname(p) == mine and win is not None and cur_seg == seg_index:
+            items.append(("op", idx))
+    evs, cols = [], []
+    sfm_atomic = tree_atomic = True
+    k = 0
+    while k < len(items):
+        if items[k][0] != "win-begin":
+            k += 1
+            continue
+        kind = items[k][1]
+        body = []
+        k += 1
+        while k < len(items) and items[k][0] != "win-end":
+            body.append(items[k])
+            k += 1
+        opidx = [x[1] for x in body if x[0] == "op"]
+        first, last = {}, {}
+        for i2 in opidx:
+            p = ops[i2].get("dst") or ops[i2].get("path")
+            first.setdefault(p, i2)
+            last[p] = i2
+        seen_cls = set()
+        if kind == "rot" and any(crashfs.file_class(ops[i2].get("dst") or ops[i2].get("path")) == "csg" for i2 in opidx):
+            return None          # the rotation flushed a block itself: not the shape of the spec's history
+        for it in body:
+            if it[0] == "segmeta":
+                evs.append({"ev": "SegmetaAppend"})
+                continue
+            i2 = it[1]
+            op = ops[i2]
+            p = op.get("dst") or op.get("path")
+            cls = crashfs.file_class(p)
+            if cls == "csg":
+                c = os.path.basename(p)
+                if c not in cols:
+                    cols.append(c)
+                if first[p] == i2:
+                    evs.append({"ev": "ColStart", "c": c})
+                if last[p] == i2:
+                    evs.append({"ev": "ColFinish", "c": c})
+            elif cls == "bsu":
+                if "bsu" not in seen_cls and op["k"] == "write":
+                    seen_cls.add("bsu")
+                    evs.append({"ev": "ColsJoined"})
+                    evs.append({"ev": "BsuAppend"})
+            elif cls == "ssttmp":
+                if "ssttmp" not in seen_cls:
+                    seen_cls.add("ssttmp")
+                    evs.append({"ev": "SstTmp"})
+            elif cls == "sst" and op["k"] == "rename":
+                evs.append({"ev": "SstRename"})
+            elif cls == "sfm":
+                pre = "Rot" if kind == "rot" else ""
+                if op["k"] == "rename":
+                    evs.append({"ev": pre + "SfmWrite"})
+                elif op["k"] == "create":
+                    sfm_atomic = False
+                    evs.append({"ev": pre + "SfmWrite"})
+                elif op["k"] == "write" and "sfmfill" not in seen_cls:
+                    seen_cls.add("sfmfill")
+                    evs.append({"ev": pre + "SfmFill"})
+            elif cls == "strmtmp":
+                if first[p] == i2:
+                    evs.append({"ev": "TreeBegin"})
+            elif cls == "strl":
+                if first[p] == i2:
+                    evs.append({"ev": "TreeLev"})
+            elif cls == "strm":
+                if op["k"] == "rename":
+                    evs.append({"ev": "TreeEnd"})
+                else:
+                    tree_atomic = False
+                    if first[p] == i2:
+                        evs.append({"ev": "TreeBegin"})
+                    if last[p] == i2:
+                        evs.append({"ev": "TreeEnd"})
+        if k < len(items):
+            evs.append({"ev": "MarkDone" if kind == "flush" else "RotDone"})
+        k += 1
+    nf = sum(1 for e in evs if e["ev"] == "MarkDone")
+    if nf == 0:
+        return None
+    return evs, {"NF": nf, "Cols": cols, "SfmAtomic": sfm_atomic, "Rotate": any(e["ev"] == "RotDone" for e in evs),
+                 "Tree": any(e["ev"] == "TreeBegin" for e in evs), "TreeAtomic": tree_atomic}
+
+
+TRACE_CFG = """SPECIFICATION TSpec
+CONSTANTS
+  NF = %(NF)d
+  Cols = {%(cols)s}
+  SfmAtomic = %(SfmAtomic)s
+  Rotate = %(Rotate)s
+  Tree = %(Tree)s
+  TreeAtomic = %(TreeAtomic)s
+INVARIANTS TypeOK BsuImpliesReadable
+POSTCONDITION TraceAccepted
+CHECK_DEADLOCK FALSE
+"""
+
+
+def validate_order(chk, name, ops, data):
+    """trace validation of the recorded file-operation order of every suitable segment of the run"""
+    n_ok = 0
+    for seg in range(4):
+        pr = spec_events(ops, data, seg)
+        if pr is None:
+            continue
+        evs, par = pr
+        sc = vlib.scratch("c07cfg")
+        try:
+            cfgp = os.path.join(sc, "Trace_FP_run.cfg")
+            b = lambda v: "TRUE" if v else "FALSE"
+            open(cfgp, "w").write(TRACE_CFG % {"NF": par["NF"], "cols": ", ".join('"%s"' % c for c in par["Cols"]), "SfmAtomic": b(par["SfmAtomic"]),
+                                               "Rotate": b(par["Rotate"]), "Tree": b(par["Tree"]), "TreeAtomic": b(par["TreeAtomic"])})
+            res = vlib.trace_validate("Trace_FlushProtocol", "Trace_FP_run.cfg", evs, extra_files=[cfgp], timeout=300)
+            if res.rc == 0 and not chk.cov.get("order_validation_selftest"):
+                # demonstrate the binding once per run: the same real trace with one pair of operations swapped (.sst.tmp
+                # before .bsu) must be rejected
+                bad = list(evs)
+                i = bad.index({"ev": "BsuAppend"})
+                bad[i], bad[i + 1] = bad[i + 1], bad[i]
+                rb = vlib.trace_validate("Trace_FlushProtocol", "Trace_FP_run.cfg", bad, extra_files=[cfgp], timeout=300)
+                if rb.rc == 0:
+                    raise vlib.Infra("Trace_FlushProtocol accepts a trace with .sst.tmp written before .bsu: the trace spec lost its teeth")
+                chk.cov["order_validation_selftest"] = "real trace with BsuAppend/SstTmp swapped rejected at event %s" % rb.depth
+        finally:
+            vlib.rmtree(sc)
+        chk.add_tlc("Trace_FlushProtocol[%s/seg%d]" % (name, seg), res,
+                    "%d file-operation events of the real writer; NF=%d cols=%d rotate=%s tree=%s" % (len(evs), par["NF"], len(par["Cols"]), par["Rotate"], par["Tree"]))
+        chk.replayed(1)
+        if res.rc != 0:
+            at = res.depth
+            chk.drift.append("SPEC-DRIFT: the recorded file-operation order of history %s segment %d is not a behaviour of FlushProtocol "
+                             "(invariants violated: %s); validation stopped at event %s: %s" % (name, seg, res.violated, at, json.dumps(evs[max(0, (at or 1) - 2):(at or 1) + 1])[:400]))
+        else:
+            n_ok += 1
+        chk.cov.setdefault("order_validation", {})["%s/seg%d" % (name, seg)] = {"events": len(evs), "params": {k: v for k, v in par.items() if k != "Cols"},
+                                                                                "accepted": res.rc == 0}
+    return n_ok
 
 
 def run_history(chk, binary, name, quick, rnd):
@@ -260,6 +431,7 @@ def run_history(chk, binary, name, quick, rnd):
             diff = sorted(set(ta) ^ set(tb)) + [k for k in ta if k in tb and ta[k] != tb[k]]
             raise vlib.Infra("replay of the recorded system calls does not reproduce the real directory (history %s): %s" % (name, diff[:6]))
         shutil.rmtree(full)
+        validate_order(chk, name, ops, data)
         # crash points: i = number of operations that completed (0..len(ops))
         n = len(ops)
         pts = list(range(n + 1))
@@ -268,7 +440,7 @@ def run_history(chk, binary, name, quick, rnd):
             keep = {0, n}
             for i in range(1, n):
                 a, b = ops[i - 1], ops[i]
-                if classify(a) != classify(b) or a["k"] != b["k"] or classify(a) in ("sfm", "bsu", "sst", "ssttmp", "segmeta", "suffix", "other"):
+                if classify(a) != classify(b) or a["k"] != b["k"] or classify(a) in ("sfm", "bsu", "sst", "ssttmp", "segmeta", "suffix", "strm", "strmtmp", "strl", "other"):
                     keep.add(i)
             rest = [i for i in pts if i not in keep]
             keep |= set(rnd.sample(rest, min(len(rest), 25)))
@@ -356,7 +528,7 @@ def run(chk):
                                    "CountAgrees": "violated" if "CountAgrees" in rc.violated else "holds"}
     binary = vlib.build_driver()
     rnd = random.Random(chk.seed)
-    names = ["f3r", "rotwip"] if quick else ["f3r", "rotwip", "f1", "r2", "wide"]
+    names = ["f3r", "rotwip", "tree"] if quick else ["f3r", "rotwip", "tree", "f1", "r2", "wide"]
     for nm in names:
         run_history(chk, binary, nm, quick, rnd)
     chk.assumptions += [
